@@ -155,6 +155,8 @@ pub enum Outcome {
     Restarted { r: usize, loaded: Result<(), String>, kind: CrashKind, opts: LoadOpts, file_len: usize },
     SyncGen { from: usize, to: usize, msg: Option<Vec<u8>> },
     SyncRecv { from: usize, to: usize, result: Result<(), String> },
+    /// a byzantine input was handed to replica r
+    Byz { r: usize, what: String, desc: String, result: Result<(), String>, changed: bool },
     Other,
 }
 
@@ -205,6 +207,8 @@ pub struct World {
     pub interleaving: crate::prng::Fnv,
     /// set when a harness-level inconsistency is detected (exit code 2, never a violation)
     pub harness_error: Option<String>,
+    /// compact tag of the last byzantine mutation handed to each replica (class:chunk type), for signatures
+    pub last_mutation: BTreeMap<usize, String>,
 }
 
 pub fn new_doc(enc: Enc, actor: &[u8]) -> AutoCommit {
@@ -235,6 +239,7 @@ impl World {
             spare_next: 0,
             interleaving: crate::prng::Fnv::new(),
             harness_error: None,
+            last_mutation: BTreeMap::new(),
         }
     }
 
@@ -1036,6 +1041,279 @@ impl World {
                 }
             }
             Ev::Probe { .. } => Outcome::Other,
+            Ev::DeliverCorrupt { from, to, pick, m } => {
+                let (f, t) = (self.rsel(*from), self.rsel(*to));
+                let nonempty: Vec<(u8, u8)> = self.links.iter().filter(|(_, q)| !q.is_empty()).map(|(k, _)| *k).collect();
+                if nonempty.is_empty() {
+                    return Outcome::Nop;
+                }
+                let key = if nonempty.contains(&(f as u8, t as u8)) { (f as u8, t as u8) } else { nonempty[(f * 8 + t) % nonempty.len()] };
+                let t = key.1 as usize;
+                let q = self.links.get_mut(&key).unwrap();
+                let i = *pick as usize % q.len();
+                let mut pk = q.remove(i);
+                let bi = (m.seed as usize / 7) % pk.blobs.len();
+                let (mutant, desc) = crate::mutate::mutate_chunks(&pk.blobs[bi], *m);
+                pk.blobs[bi] = mutant;
+                pk.hashes.clear();
+                self.last_mutation.insert(t, crate::mutate::tag_of(m.class, &desc));
+                self.stats.bump(&format!("fault.corrupt.{:?}", m.class));
+                self.reps[t].tainted = true;
+                crate::monitor::set_subcontext(&format!("{}: {desc}", if pk.stream { "load_incremental" } else { "apply_changes" }));
+                let before = self.reps[t].known.len();
+                let out = self.deliver(t, pk);
+                let result = match out {
+                    Outcome::Delivered { result, .. } => result,
+                    _ => Ok(()),
+                };
+                if result.is_ok() {
+                    self.stats.bump("probe.corrupt_input_accepted");
+                }
+                Outcome::Byz {
+                    r: t,
+                    what: "deliver_corrupt".into(),
+                    desc,
+                    result,
+                    changed: self.reps[t].known.len() != before,
+                }
+            }
+            Ev::RecvCorrupt { from, to, m } => {
+                let (f, t) = (self.rsel(*from), self.rsel(*to));
+                let (key, _fs, ts) = match self.session_sides(f, t) {
+                    Some(x) => x,
+                    None => return Outcome::Nop,
+                };
+                if self.sessions[&key].queue[ts].is_empty() {
+                    return Outcome::Nop;
+                }
+                self.commit_pending(t);
+                if self.reps[t].isolated.is_some() {
+                    return Outcome::Nop;
+                }
+                let s = self.sessions.get_mut(&key).unwrap();
+                let bytes = s.queue[ts].pop_front().unwrap();
+                let (mutant, desc) = crate::mutate::mutate_sync(&bytes, *m);
+                self.stats.bump(&format!("fault.corrupt_sync.{:?}", m.class));
+                self.last_mutation.insert(t, format!("{:?}:sync", m.class));
+                self.reps[t].tainted = true;
+                crate::monitor::set_subcontext(&format!("sync message: {desc}"));
+                let before = self.reps[t].known.len();
+                let result = match automerge::sync::Message::decode(&mutant) {
+                    Ok(msg) => {
+                        self.stats.bump("probe.corrupt_sync_decoded");
+                        let r = self.reps[t].doc.sync().receive_sync_message(&mut s.state[ts], msg).map_err(|e| format!("{e}"));
+                        // and the reply the peer would now generate
+                        crate::monitor::set_subcontext(&format!("generate after sync message: {desc}"));
+                        let _ = self.reps[t].doc.sync().generate_sync_message(&mut s.state[ts]);
+                        r
+                    }
+                    Err(e) => Err(format!("decode: {e}")),
+                };
+                self.harvest(t);
+                Outcome::Byz {
+                    r: t,
+                    what: "recv_corrupt".into(),
+                    desc,
+                    result,
+                    changed: self.reps[t].known.len() != before,
+                }
+            }
+            Ev::CrashCorrupt { r, m, opts } => {
+                let r = self.rsel(*r);
+                if self.reps[r].disk.current.is_empty() || self.reps[r].isolated.is_some() {
+                    return Outcome::Nop;
+                }
+                self.reps[r].tainted = true;
+                self.stats.bump(&format!("fault.corrupt_disk.{:?}", m.class));
+                self.crash_restart_with(r, CrashKind::Clean, *opts, Some(*m))
+            }
+            Ev::IdFuzz { r, what, sel, m } => {
+                let r = self.rsel(*r);
+                self.id_fuzz(r, *what, *sel, *m)
+            }
+        }
+    }
+
+    /// decoders of small encodings fed mutated input (C15/C19/C23)
+    fn id_fuzz(&mut self, r: usize, what: u8, sel: u32, m: crate::mutate::Mutation) -> Outcome {
+        use crate::mutate::mutate_small;
+        let pool_id = self.pool[sel as usize % self.pool.len()].id.clone();
+        let lossy = |b: &[u8]| String::from_utf8_lossy(b).to_string();
+        let doc = &mut self.reps[r].doc;
+        let mut desc = String::new();
+        let mut accepted = false;
+        match what % 13 {
+            0 => {
+                let b = mutate_small(&pool_id.to_bytes(), m);
+                desc = format!("ObjId::try_from({})", hex::encode(&b));
+                crate::monitor::set_subcontext(&desc);
+                if let Ok(id) = ObjId::try_from(b.as_slice()) {
+                    accepted = true;
+                    let _ = doc.object_type(&id);
+                    let _ = doc.keys(&id).count();
+                    let _ = doc.length(&id);
+                    let _ = doc.get(&id, "a");
+                    let _ = doc.get(&id, 0usize);
+                    let _ = doc.text(&id);
+                    let _ = doc.parents(&id).map(|p| p.count());
+                }
+            }
+            1 => {
+                let s = lossy(&mutate_small(pool_id.to_string().as_bytes(), m));
+                desc = format!("import({s:?})");
+                crate::monitor::set_subcontext(&desc);
+                accepted |= doc.import(&s).is_ok();
+                crate::monitor::set_subcontext(&format!("import_obj({s:?})"));
+                accepted |= doc.import_obj(&s).is_ok();
+            }
+            2 | 3 => {
+                // a cursor from some sequence object of this replica
+                let seqs: Vec<ObjId> = self.pool.iter().filter(|p| p.typ.is_seq()).map(|p| p.id.clone()).filter(|id| doc.object_type(id).is_ok() && doc.length(id) > 0).collect();
+                if seqs.is_empty() {
+                    return Outcome::Nop;
+                }
+                let obj = &seqs[sel as usize % seqs.len()];
+                let pos = (sel as usize / 3) % doc.length(obj);
+                let cur = match doc.get_cursor(obj, pos, None) {
+                    Ok(c) => c,
+                    Err(_) => return Outcome::Nop,
+                };
+                if what % 13 == 2 {
+                    let b = mutate_small(&cur.to_bytes(), m);
+                    desc = format!("Cursor::try_from(bytes {})", hex::encode(&b));
+                    crate::monitor::set_subcontext(&desc);
+                    if let Ok(c) = automerge::Cursor::try_from(b.as_slice()) {
+                        accepted = true;
+                        let _ = doc.get_cursor_position(obj, &c, None);
+                    }
+                } else {
+                    let s = lossy(&mutate_small(cur.to_string().as_bytes(), m));
+                    desc = format!("Cursor::try_from(str {s:?})");
+                    crate::monitor::set_subcontext(&desc);
+                    if let Ok(c) = automerge::Cursor::try_from(s.as_str()) {
+                        accepted = true;
+                        let _ = doc.get_cursor_position(obj, &c, None);
+                    }
+                }
+            }
+            4 => {
+                let s = lossy(&mutate_small(doc.get_actor().to_hex_string().as_bytes(), m));
+                desc = format!("ActorId::try_from({s:?})");
+                crate::monitor::set_subcontext(&desc);
+                accepted = ActorId::try_from(s.as_str()).is_ok();
+            }
+            5 => {
+                let h = doc.get_heads().first().cloned().unwrap_or(ChangeHash([7; 32]));
+                let b = mutate_small(&h.0, m);
+                desc = format!("ChangeHash::try_from({})", hex::encode(&b));
+                crate::monitor::set_subcontext(&desc);
+                accepted = ChangeHash::try_from(b.as_slice()).is_ok();
+                let s = lossy(&mutate_small(h.to_string().as_bytes(), m));
+                crate::monitor::set_subcontext(&format!("ChangeHash::from_str({s:?})"));
+                accepted |= s.parse::<ChangeHash>().is_ok();
+            }
+            6 => {
+                let mut st = automerge::sync::State::new();
+                st.shared_heads = doc.get_heads();
+                let b = mutate_small(&st.encode(), m);
+                desc = format!("State::decode({})", hex::encode(&b));
+                crate::monitor::set_subcontext(&desc);
+                if let Ok(mut s) = automerge::sync::State::decode(&b) {
+                    accepted = true;
+                    crate::monitor::set_subcontext(&format!("generate_sync_message after {desc}"));
+                    let _ = doc.sync().generate_sync_message(&mut s);
+                }
+            }
+            7 => {
+                let hashes: Vec<ChangeHash> = self.reps[r].known.iter().take(40).map(|h| ChangeHash(*h)).collect();
+                let doc = &mut self.reps[r].doc;
+                let mut st = automerge::sync::State::new();
+                let bloom_bytes = doc
+                    .sync()
+                    .generate_sync_message(&mut st)
+                    .and_then(|msg| msg.have.first().map(|h| h.bloom.to_bytes()))
+                    .unwrap_or_default();
+                let b = if bloom_bytes.is_empty() { mutate_small(&[3, 10, 7, 0xff, 0xff, 0xff, 0xff], m) } else { mutate_small(&bloom_bytes, m) };
+                desc = format!("BloomFilter::try_from({})", hex::encode(&b[..b.len().min(24)]));
+                crate::monitor::set_subcontext(&desc);
+                if let Ok(bf) = automerge::sync::BloomFilter::try_from(b.as_slice()) {
+                    accepted = true;
+                    crate::monitor::set_subcontext(&format!("contains_hash on {desc}"));
+                    for h in &hashes {
+                        let _ = bf.contains_hash(h);
+                    }
+                    let _ = bf.contains_hash(&ChangeHash([0; 32]));
+                    let _ = bf.to_bytes();
+                }
+            }
+            8 => {
+                let b = crate::mutate::mutate_sync(&[0x42, 0, 0, 0, 0], m).0;
+                desc = format!("Message::decode({})", hex::encode(&b[..b.len().min(24)]));
+                crate::monitor::set_subcontext(&desc);
+                accepted = automerge::sync::Message::decode(&b).is_ok();
+            }
+            9 => {
+                let raw = match self.reps[r].known.iter().nth(sel as usize % self.reps[r].known.len().max(1)).and_then(|h| self.reg.get(h)) {
+                    Some(c) => c.raw.clone(),
+                    None => return Outcome::Nop,
+                };
+                let (b, d) = crate::mutate::mutate_chunks(&raw, m);
+                desc = format!("Change::from_bytes: {d}");
+                crate::monitor::set_subcontext(&desc);
+                if let Ok(c) = Change::from_bytes(b) {
+                    accepted = true;
+                    let _ = c.decode();
+                    let _ = c.hash();
+                }
+            }
+            10 => {
+                let doc = &mut self.reps[r].doc;
+                let hs = doc.get_changes(&[]).iter().map(|c| c.hash()).collect::<Vec<_>>();
+                let bundle = match doc.bundle(hs) {
+                    Ok(b) => b.bytes().to_vec(),
+                    Err(_) => return Outcome::Nop,
+                };
+                let (b, d) = crate::mutate::mutate_chunks(&bundle, m);
+                desc = format!("Bundle::try_from: {d}");
+                crate::monitor::set_subcontext(&desc);
+                if let Ok(bd) = automerge::Bundle::try_from(b.as_slice()) {
+                    accepted = true;
+                    let _ = bd.to_changes();
+                    let _ = bd.deps().len();
+                }
+            }
+            11 => {
+                let doc = &mut self.reps[r].doc;
+                let bytes = doc.document().save();
+                let (b, d) = crate::mutate::mutate_chunks(&bytes, m);
+                desc = format!("rescue: {d}");
+                crate::monitor::set_subcontext(&desc);
+                accepted = automerge::Automerge::rescue(&b).is_ok();
+            }
+            _ => {
+                let doc = &mut self.reps[r].doc;
+                let bytes = doc.document().save();
+                let (b, d) = crate::mutate::mutate_chunks(&bytes, m);
+                desc = format!("load (fresh): {d}");
+                crate::monitor::set_subcontext(&desc);
+                if let Ok(d2) = automerge::Automerge::load(&b) {
+                    accepted = true;
+                    let _ = d2.get_heads();
+                    let _ = d2.hydrate(None);
+                    let _ = d2.save();
+                }
+            }
+        }
+        self.stats.bump(&format!("fault.id_fuzz.{}", what % 13));
+        if accepted {
+            self.stats.bump("probe.fuzzed_small_input_accepted");
+        }
+        Outcome::Byz {
+            r,
+            what: "id_fuzz".into(),
+            desc,
+            result: if accepted { Ok(()) } else { Err("rejected".into()) },
+            changed: false,
         }
     }
 
@@ -1178,6 +1456,10 @@ impl World {
     }
 
     fn crash_restart(&mut self, r: usize, kind: CrashKind, opts: LoadOpts) -> Outcome {
+        self.crash_restart_with(r, kind, opts, None)
+    }
+
+    fn crash_restart_with(&mut self, r: usize, kind: CrashKind, opts: LoadOpts, corrupt: Option<crate::mutate::Mutation>) -> Outcome {
         // a crash loses the open transaction
         if self.reps[r].doc.pending_ops() > 0 {
             self.reps[r].doc.rollback();
@@ -1204,6 +1486,13 @@ impl World {
             if let CrashKind::Torn(n) = kind {
                 let cut = n as usize % (b.len() + 1);
                 b.truncate(cut);
+                orph.clear();
+            }
+            if let Some(m) = corrupt {
+                let (mb, desc) = crate::mutate::mutate_chunks(&b, m);
+                crate::monitor::set_subcontext(&format!("load: {desc}"));
+                self.last_mutation.insert(r, crate::mutate::tag_of(m.class, &desc));
+                b = mb;
                 orph.clear();
             }
             (b, orph)
